@@ -20,7 +20,10 @@ import Splipy.Lemmas.C12Stages
 * `Obj.identicalDir_wf`, `Obj.makeIdenticalDir_wf`, `Obj.identicalLoop_wf` — the compositions;
 * `Obj.IdenticalGuard`, `Obj.makeIdentical_wf_partial` — the guard quantifies over the intermediate
   states (it mirrors the recursion of `identicalDir` / `identicalLoop`);
-* `History.exec_identical_wf` — the pool instruction.
+* `History.exec_identical_wf` — the pool instruction;
+* §5: the same without the periodic guards (`lower_periodic` and periodic `insert_knot` need none):
+  `stagePeriodic_wf_all`, `MergeGuardAll`, `stageMerge_wf_all`, `IdenticalGuardAll`,
+  `makeIdentical_wf_all_partial`, `History.exec_identical_wf_all`, `IdenticalGuard.all` (old ⇒ new).
 -/
 
 set_option linter.unusedSectionVars false
@@ -297,6 +300,190 @@ theorem makeIdentical_wf_partial {s1 s2 r1 r2 : Obj K} (h1 : s1.WellFormed) (h2 
     obtain ⟨wr1, wr2, zr1, zr2⟩ := identicalLoop_wf (r := (r1, r2)) htol _ w1 w2 (by rw [z1]) (by rw [z2]) hg hs
     exact ⟨wr1, wr2, zr1.trans z1, zr2.trans z2⟩
 
+/-! ## 5. The same without the periodic guards
+
+`lower_periodic` (`WellFormed.lowerPeriodic_any`) and `insert_knot` along a periodic direction
+(`WellFormed.insertKnots_all`) need no hypothesis any more: what remains is `OrderGuard` (the two
+`RaiseGuard`s) and, along a NON-periodic direction, that the merged values lie in `[start, end)`
+(`OpenKnotsOK`). -/
+
+/-- Every successful `lower_periodic` keeps the object well formed and its number of bases. -/
+theorem WellFormed.lowerPeriodic_size {o o' : Obj K} (h : o.WellFormed) (i : ℕ) (hi : i < o.bases.size)
+    (t : Int) (hs : o.lowerPeriodic t i = .ok o') : o'.WellFormed ∧ o'.bases.size = o.bases.size :=
+  ⟨h.lowerPeriodic_any i hi t hs, (C12.lowerPeriodic_onlyDir hs).size⟩
+
+/-- **Stage 2, no guard.** -/
+theorem stagePeriodic_wf_all {a b : Obj K × Obj K} {i : ℕ} (h1 : a.1.WellFormed) (h2 : a.2.WellFormed)
+    (hi1 : i < a.1.bases.size) (hi2 : i < a.2.bases.size) (hs : stagePeriodic a i = .ok b) :
+    b.1.WellFormed ∧ b.2.WellFormed ∧ b.1.bases.size = a.1.bases.size ∧ b.2.bases.size = a.2.bases.size := by
+  rcases C12.stagePeriodic_ok hs with ⟨_, e⟩ | ⟨_, e1, e2⟩ | ⟨_, e1, e2⟩
+  · rw [e]; exact ⟨h1, h2, rfl, rfl⟩
+  · obtain ⟨w, z⟩ := h2.lowerPeriodic_size i hi2 _ e2
+    rw [e1]; exact ⟨h1, w, rfl, z⟩
+  · obtain ⟨w, z⟩ := h1.lowerPeriodic_size i hi1 _ e2
+    rw [e1]; exact ⟨w, h2, z, rfl⟩
+
+/-- The old condition on inserted values implies the new one. -/
+theorem KnotsOK.openKnotsOK {b : Basis K} {xs : List K} (h : KnotsOK b xs) : OpenKnotsOK b xs := by
+  intro hper
+  rcases h with ⟨_, hxs⟩ | ⟨k, hk, _, _⟩
+  · exact hxs
+  · exfalso; rw [hper] at hk; omega
+
+/-- Guard of stage 4 without periodic conditions: along a non-periodic direction the values of the
+    first pass lie in `[start, end)` of object 2 and — for every outcome `s2'` of that insertion — the
+    values of the second pass in `[start, end)` of object 1 (`Obj.OpenKnotsOK`; nothing is asked along a
+    periodic direction). -/
+def MergeGuardAll (tol : K) (p : ℕ) (c : Obj K × Obj K) (i : ℕ) : Prop :=
+  ∀ ins2, firstInserts tol p c i = .ok ins2 →
+    OpenKnotsOK (c.2.basis i) ins2 ∧
+    ∀ s2', c.2.insertKnots ins2 i = .ok s2' → ∀ ins1, secondInserts tol p c s2' i = .ok ins1 →
+      OpenKnotsOK (c.1.basis i) ins1
+
+theorem MergeGuard.all {tol : K} {p : ℕ} {c : Obj K × Obj K} {i : ℕ} (h : MergeGuard tol p c i) :
+    MergeGuardAll tol p c i := by
+  intro ins2 e1
+  obtain ⟨k2, hrest⟩ := h ins2 e1
+  exact ⟨k2.openKnotsOK, fun s2' e2 ins1 e3 => (hrest s2' e2 ins1 e3).openKnotsOK⟩
+
+/-- **Stage 4 under `MergeGuardAll`.** -/
+theorem stageMerge_wf_all {tol : K} {p : ℕ} {c r : Obj K × Obj K} {i : ℕ}
+    (h1 : c.1.WellFormed) (h2 : c.2.WellFormed) (hi1 : i < c.1.bases.size) (hi2 : i < c.2.bases.size)
+    (hg : MergeGuardAll tol p c i) (hs : stageMerge tol p c i = .ok r) :
+    r.1.WellFormed ∧ r.2.WellFormed ∧ r.1.bases.size = c.1.bases.size ∧ r.2.bases.size = c.2.bases.size := by
+  obtain ⟨ins2, ins1, e1, e2, e3, e4⟩ := C12.stageMerge_ok hs
+  obtain ⟨k2, hrest⟩ := hg ins2 e1
+  have k1 := hrest r.2 e2 ins1 e3
+  obtain ⟨w2, z2, _⟩ := h2.insertKnots_all i hi2 ins2 k2 e2
+  obtain ⟨w1, z1, _⟩ := h1.insertKnots_all i hi1 ins1 k1 e4
+  exact ⟨w1, w2, z1, z2⟩
+
+/-- Guard of one checked direction without periodic conditions: `OrderGuard` on the state stage 3
+    receives, `MergeGuardAll` on the state stage 4 receives. -/
+def DirGuardAll (tol : K) (c1 c2 : Bool) (s : Obj K × Obj K) (i : ℕ) : Prop :=
+  ∀ a, stageReparam s i = .ok a →
+    ∀ b, stagePeriodic a i = .ok b →
+      OrderGuard tol b i ∧
+      ∀ c, stageOrder tol c1 c2 b i = .ok c →
+        MergeGuardAll tol (max (b.1.basis i).order (b.2.basis i).order) c i
+
+theorem DirGuard.all {tol : K} {c1 c2 : Bool} {s : Obj K × Obj K} {i : ℕ} (h : DirGuard tol c1 c2 s i) :
+    DirGuardAll tol c1 c2 s i := by
+  intro a ea b eb
+  obtain ⟨gO, hg⟩ := (h a ea).2 b eb
+  exact ⟨gO, fun c ec => (hg c ec).all⟩
+
+theorem identicalDir_wf_all {tol : K} (htol : 0 < tol) {c1 c2 : Bool} {s r : Obj K × Obj K} {i : ℕ}
+    (h1 : s.1.WellFormed) (h2 : s.2.WellFormed)
+    (hc1 : c1 = (s.1.bases.size == 1)) (hc2 : c2 = (s.2.bases.size == 1)) (hg : DirGuardAll tol c1 c2 s i)
+    (hs : identicalDir tol c1 c2 s i = .ok r) :
+    r.1.WellFormed ∧ r.2.WellFormed ∧ r.1.bases.size = s.1.bases.size ∧ r.2.bases.size = s.2.bases.size := by
+  obtain ⟨a, b, c, ea, eb, ec, er⟩ := C12.identicalDir_ok hs
+  obtain ⟨gO, hg⟩ := hg a ea b eb
+  have gM := hg c ec
+  obtain ⟨wa1, wa2, za1, za2, hi1, hi2⟩ := stageReparam_wf h1 h2 ea
+  obtain ⟨wb1, wb2, zb1, zb2⟩ := stagePeriodic_wf_all wa1 wa2 (by omega) (by omega) eb
+  obtain ⟨wc1, wc2, zc1, zc2⟩ := stageOrder_wf htol wb1 wb2 (by omega) (by omega)
+    (by rw [hc1, zb1, za1]) (by rw [hc2, zb2, za2]) gO ec
+  obtain ⟨wr1, wr2, zr1, zr2⟩ := stageMerge_wf_all wc1 wc2 (by omega) (by omega) gM er
+  exact ⟨wr1, wr2, by omega, by omega⟩
+
+def DirTokGuardAll (tol : K) (c1 c2 : Bool) (s : Obj K × Obj K) (d : DirTok) : Prop :=
+  ∀ i, Splipy.checkDirection d (makeCompatible s.1 s.2).1.pardimB = .ok i →
+    DirGuardAll tol c1 c2 (makeCompatible s.1 s.2) i
+
+theorem DirTokGuard.all {tol : K} {c1 c2 : Bool} {s : Obj K × Obj K} {d : DirTok}
+    (h : DirTokGuard tol c1 c2 s d) : DirTokGuardAll tol c1 c2 s d :=
+  fun i hi => (h i hi).all
+
+theorem makeIdenticalDir_wf_all {tol : K} (htol : 0 < tol) {c1 c2 : Bool} {s r : Obj K × Obj K} {d : DirTok}
+    (h1 : s.1.WellFormed) (h2 : s.2.WellFormed)
+    (hc1 : c1 = (s.1.bases.size == 1)) (hc2 : c2 = (s.2.bases.size == 1)) (hg : DirTokGuardAll tol c1 c2 s d)
+    (hs : makeIdenticalDir tol c1 c2 s d = .ok r) :
+    r.1.WellFormed ∧ r.2.WellFormed ∧ r.1.bases.size = s.1.bases.size ∧ r.2.bases.size = s.2.bases.size := by
+  obtain ⟨w1, w2, _, _⟩ := makeCompatible_wf h1 h2
+  obtain ⟨z1, z2⟩ := makeCompatible_size s.1 s.2
+  unfold makeIdenticalDir at hs
+  simp only [] at hs
+  cases hd : Splipy.checkDirection d (makeCompatible s.1 s.2).1.pardimB with
+  | error e => rw [hd] at hs; cases hs
+  | ok i =>
+    rw [hd] at hs
+    obtain ⟨wr1, wr2, zr1, zr2⟩ :=
+      identicalDir_wf_all htol w1 w2 (by rw [hc1, z1]) (by rw [hc2, z2]) (hg i hd) hs
+    exact ⟨wr1, wr2, by omega, by omega⟩
+
+/-- Guard of the loop over all directions (no periodic conditions): mirrors `identicalLoop`. -/
+def LoopGuardAll (tol : K) (c1 c2 : Bool) : List ℕ → Obj K × Obj K → Prop
+  | [], _ => True
+  | i :: is, s =>
+    DirTokGuardAll tol c1 c2 s (.int i) ∧
+    ∀ s', makeIdenticalDir tol c1 c2 s (.int i) = .ok s' → LoopGuardAll tol c1 c2 is s'
+
+theorem LoopGuard.all {tol : K} {c1 c2 : Bool} (is : List ℕ) :
+    ∀ {s : Obj K × Obj K}, LoopGuard tol c1 c2 is s → LoopGuardAll tol c1 c2 is s := by
+  induction is with
+  | nil => intro s _; trivial
+  | cons i is ih =>
+    intro s h
+    exact ⟨h.1.all, fun s' hs' => ih (h.2 s' hs')⟩
+
+theorem identicalLoop_wf_all {tol : K} (htol : 0 < tol) {c1 c2 : Bool} (is : List ℕ) :
+    ∀ {s r : Obj K × Obj K}, s.1.WellFormed → s.2.WellFormed →
+      c1 = (s.1.bases.size == 1) → c2 = (s.2.bases.size == 1) → LoopGuardAll tol c1 c2 is s →
+      identicalLoop tol c1 c2 is s = .ok r →
+      r.1.WellFormed ∧ r.2.WellFormed ∧ r.1.bases.size = s.1.bases.size ∧ r.2.bases.size = s.2.bases.size := by
+  induction is with
+  | nil =>
+    intro s r h1 h2 _ _ _ hs
+    unfold identicalLoop at hs
+    have : s = r := Except.ok.inj hs
+    rw [← this]; exact ⟨h1, h2, rfl, rfl⟩
+  | cons i is ih =>
+    intro s r h1 h2 hc1 hc2 hg hs
+    unfold identicalLoop at hs
+    obtain ⟨g1, g2⟩ := hg
+    cases hm : makeIdenticalDir tol c1 c2 s (.int i) with
+    | error e => rw [hm] at hs; cases hs
+    | ok s' =>
+      rw [hm] at hs
+      obtain ⟨w1, w2, z1, z2⟩ := makeIdenticalDir_wf_all htol h1 h2 hc1 hc2 g1 hm
+      obtain ⟨wr1, wr2, zr1, zr2⟩ := ih w1 w2 (by rw [hc1, z1]) (by rw [hc2, z2]) (g2 s' hm) hs
+      exact ⟨wr1, wr2, by omega, by omega⟩
+
+/-- **Guard of `make_splines_identical(s1, s2, direction)` without periodic conditions**: only the
+    guards of `raise_order` (`OrderGuard`) and, along non-periodic directions, of `insert_knot`
+    (`MergeGuardAll`), on the states these calls receive. -/
+def IdenticalGuardAll (tol : K) (s1 s2 : Obj K) (direction : Option DirTok) : Prop :=
+  match direction with
+  | some d => DirTokGuardAll tol (s1.bases.size == 1) (s2.bases.size == 1) (s1, s2) d
+  | none =>
+    LoopGuardAll tol (s1.bases.size == 1) (s2.bases.size == 1)
+      (List.range (makeCompatible s1 s2).1.pardimB) (makeCompatible s1 s2)
+
+/-- The old guard is stronger. -/
+theorem IdenticalGuard.all {tol : K} {s1 s2 : Obj K} {direction : Option DirTok}
+    (h : IdenticalGuard tol s1 s2 direction) : IdenticalGuardAll tol s1 s2 direction := by
+  cases direction with
+  | some d => exact DirTokGuard.all h
+  | none => exact LoopGuard.all _ h
+
+/-- **`make_splines_identical` keeps both objects well formed** (and their numbers of bases), under
+    the guards of `raise_order` and of non-periodic `insert_knot` only. -/
+theorem makeIdentical_wf_all_partial {s1 s2 r1 r2 : Obj K} (h1 : s1.WellFormed) (h2 : s2.WellFormed) (tol : K)
+    (htol : 0 < tol) (direction : Option DirTok) (hg : IdenticalGuardAll tol s1 s2 direction)
+    (hs : Obj.makeIdentical tol (s1.bases.size == 1) (s2.bases.size == 1) s1 s2 direction = .ok (r1, r2)) :
+    r1.WellFormed ∧ r2.WellFormed ∧ r1.bases.size = s1.bases.size ∧ r2.bases.size = s2.bases.size := by
+  cases direction with
+  | some d =>
+    exact makeIdenticalDir_wf_all (s := (s1, s2)) (r := (r1, r2)) htol h1 h2 rfl rfl hg hs
+  | none =>
+    obtain ⟨w1, w2, _, _⟩ := makeCompatible_wf h1 h2
+    obtain ⟨z1, z2⟩ := makeCompatible_size s1 s2
+    obtain ⟨wr1, wr2, zr1, zr2⟩ :=
+      identicalLoop_wf_all (r := (r1, r2)) htol _ w1 w2 (by rw [z1]) (by rw [z2]) hg hs
+    exact ⟨wr1, wr2, zr1.trans z1, zr2.trans z2⟩
+
 end Obj
 
 /-! ## 4. The pool instruction -/
@@ -330,6 +517,43 @@ theorem exec_identical_wf {pool pool' : List (Obj K)} (hpool : ∀ o ∈ pool, o
           have ha : a.WellFormed := hpool a (List.mem_of_getElem? hi)
           have hb : b.WellFormed := hpool b (List.mem_of_getElem? hj)
           obtain ⟨w1, w2, _, _⟩ := Obj.makeIdentical_wf_partial (r1 := r.1) (r2 := r.2) ha hb tol htol _
+            (hg a b hi hj) hm
+          intro o ho
+          rw [← hp] at ho
+          rcases List.mem_or_eq_of_mem_set ho with ho | rfl
+          · rcases List.mem_or_eq_of_mem_set ho with ho | rfl
+            · exact hpool o ho
+            · exact w1
+          · exact w2
+
+/-- The pool instruction under the guard without periodic conditions. -/
+theorem exec_identical_wf_all {pool pool' : List (Obj K)} (hpool : ∀ o ∈ pool, o.WellFormed) (tol : K)
+    (htol : 0 < tol) (i j : ℕ) (direction : Option ℕ)
+    (hg : ∀ a b, pool[i]? = some a → pool[j]? = some b →
+      Obj.IdenticalGuardAll tol a b (direction.map (fun d => DirTok.int d)))
+    (hs : exec tol pool (.identical i j direction) = .ok pool') : ∀ o ∈ pool', o.WellFormed := by
+  unfold exec at hs
+  simp only [] at hs
+  cases hi : pool[i]? with
+  | none => rw [hi] at hs; cases hs
+  | some a =>
+    cases hj : pool[j]? with
+    | none => rw [hi, hj] at hs; cases hs
+    | some b =>
+      rw [hi, hj] at hs
+      simp only [] at hs
+      by_cases hij : i = j
+      · rw [if_pos hij] at hs; cases hs
+      · rw [if_neg hij] at hs
+        cases hm : Obj.makeIdentical tol (a.bases.size == 1) (b.bases.size == 1) a b
+            (direction.map (fun d => DirTok.int d)) with
+        | error e => rw [hm] at hs; cases hs
+        | ok r =>
+          rw [hm] at hs
+          have hp : (pool.set i r.1).set j r.2 = pool' := Except.ok.inj hs
+          have ha : a.WellFormed := hpool a (List.mem_of_getElem? hi)
+          have hb : b.WellFormed := hpool b (List.mem_of_getElem? hj)
+          obtain ⟨w1, w2, _, _⟩ := Obj.makeIdentical_wf_all_partial (r1 := r.1) (r2 := r.2) ha hb tol htol _
             (hg a b hi hj) hm
           intro o ho
           rw [← hp] at ho
